@@ -43,6 +43,11 @@ CLAIMED = {
    text="Seeded histories interleaving valid calls with calls built to fail at 30 validation and capacity points (incl. calls on closed handles and repeated Close); the model ignores every call that returned an error, so any trace a failed call leaves in the reopened file, any later misbehaviour and any panic is a violation.",
    technique="deterministic simulation: histories with failing calls vs model that ignores failed calls",
    ref="DESIGN.md section 4 C16"),
+ "C17": dict(level="fault_enumeration", engine="E2-fault-simulator",
+   text="Per workload (a simulated E1 history that writes a file, or a bundled reference file) faults are enumerated, not sampled: every truncation length (small files; structure boundaries +-1 plus a stratified sample for larger ones), every position k of a failing ReadAt in the reader's I/O sequence, every position k of a failing WriteAt/ReadAt/Sync and a torn variant of every write in the writer's I/O sequence. Relaxed oracle: error or exactly the fault-free answer; no silently missing members/attributes; no panic; an unreported fault must change nothing. Worker processes run under an address-space limit and a hang watchdog; a process death is attributed to the announced trace and fault and reported after two fresh-process replays.",
+   technique="deterministic fault enumeration over simulated I/O step sequences (EIO, torn writes, truncation) with golden-answer oracle",
+   note="Trusted base: the fault layer behind the H3/H4 seams, the relaxed comparison (sim/e2), Go toolchain. Workloads are sampled (320 quick / 6000 thorough), fault positions per workload are exhaustive up to the stated bounds. Sync faults only test error propagation (tmpfs).",
+   ref="DESIGN.md section 4 C17"),
  "C01": dict(level="exploration", engine="E1-history-simulator",
    text="Seeded deterministic simulation of write/restart/read histories (all dataset types x ranks x layouts x superblock versions x data classes) against an executable reference model; every failing run is minimised and replayed twice in fresh processes before it is reported.",
    technique="deterministic simulation: seeded write/restart/read histories vs reference model over a simulated disk",
@@ -93,6 +98,8 @@ def main():
         "engines": [
             {"name": "E1-history-simulator", "path": "/verif/sim/e1", "serves_properties": [p for p in CLAIMED if CLAIMED[p]["engine"].startswith("E1")],
              "kind_free_text": "seeded operation histories with restarts through the real public API over the simulated disk, compared with an executable reference model"},
+            {"name": "E2-fault-simulator", "path": "/verif/sim/e2", "serves_properties": [p for p in CLAIMED if CLAIMED[p]["engine"].startswith("E2")],
+             "kind_free_text": "the same workloads and the bundled reference files re-run under an explicit fault plan (failing/torn I/O calls at every step, truncation at every length, altered stored bytes) with a relaxed golden-answer oracle; crash-tolerant worker processes"},
         ],
         "checks": checks,
         "notes": ("Hooks: H1/H2 internal/utils/verif_{on,off}.go + 6 added lines in bufferpool.go (add-only); "
